@@ -2,14 +2,19 @@ import Driver.Common
 import GM.Spec.Vocab
 import GM.Spec.Url
 import GM.Model.Util
-namespace Driver
-open GM GM.Spec
+namespace Driver.TokD
+open GM GM.Spec Driver
 
 def tokStr : Tok → String
   | .startTag n as sc => "<" ++ hexOfBytes n ++ String.join (as.map fun a => " " ++ hexOfBytes a.1 ++ "=" ++ hexOfBytes a.2) ++ (if sc then "/" else "") ++ ">"
   | .endTag n => "</" ++ hexOfBytes n ++ ">"
   | .text b => "T" ++ hexOfBytes b
   | .comment => "C"
+
+end Driver.TokD
+
+namespace Driver
+open GM GM.Spec Driver.TokD
 
 def handleTok : List String → String
   | ["safe", x, v] => hx v fun b =>
